@@ -1,5 +1,5 @@
 """Contracts for Matryoshka (C03, C04, C11)."""
-from pyvc.spec import (contract, Rec, Opt, PowerT, Int, Real, Bool, StrId, OpaqueT, SetSeq, Obj,
+from pyvc.spec import (contract, Rec, Opt, PowerT, Int, Real, Bool, StrId, OpaqueT, KeySet, Obj,
                        implies, forall)
 from contracts.common import (BoundsT, OptBoundsT, ProposalBoundsT, SystemBoundsT, zero, in_zone, usable)
 
@@ -10,6 +10,8 @@ PROPOSAL = "frequenz.sdk.microgrid._power_managing._base_classes:Proposal"
 ProposalT = Rec(PROPOSAL, source_id=StrId, preferred_power=Opt(PowerT), bounds=ProposalBoundsT,
                 component_ids=OpaqueT("component_ids"), priority=Int, creation_time=Real,
                 set_operating_point=Bool)
+
+ProposalSetT = KeySet(ProposalT, key=("priority", "source_id"))
 
 MatryoshkaSelf = Obj(f"{M}:Matryoshka")
 
@@ -38,7 +40,7 @@ def envelope(p, sb):
 @contract(f"{M}:Matryoshka._calc_target_power")
 class CalcTargetPower:
     self_shape = MatryoshkaSelf
-    shapes = dict(proposals=SetSeq(ProposalT), system_bounds=SystemBoundsT)
+    shapes = dict(proposals=ProposalSetT, system_bounds=SystemBoundsT)
     result = PowerT
     pure = True
     native_opaque = {"component_ids": frozenset({1})}
@@ -148,7 +150,7 @@ C04_REQUIRES = dict(
 @contract(f"{M}:Matryoshka._calc_target_power", case="c04")
 class CalcTargetPowerC04:
     self_shape = MatryoshkaSelf
-    shapes = dict(proposals=SetSeq(ProposalT), system_bounds=SystemBoundsT)
+    shapes = dict(proposals=ProposalSetT, system_bounds=SystemBoundsT)
     result = PowerT
     native_opaque = {"component_ids": frozenset({1})}
     ghost_seqs = GHOST_SEQS
@@ -168,3 +170,120 @@ class CalcTargetPowerC04:
         ),
     }
     ensures = dict(target_is_documented_choice="result == T(len(proposals))")
+
+
+# ---------------------------------------------------------------------------------------
+# Matryoshka's public methods (C03 history-freedom, C04 reported bounds, C11 stored targets)
+# ---------------------------------------------------------------------------------------
+from pyvc.spec import (Const, DictOpt, exists, keyset_has, keyset_get, same_record)  # noqa: E402
+
+CID = frozenset({1, 2})        # the component group the call is about
+OTHER = frozenset({7})         # some other, disjoint group with its own bucket
+OVERLAP = frozenset({2, 9})    # a group overlapping CID (only to reach the NotImplementedError branch)
+KEY = ("priority", "source_id")
+
+MatryoshkaState = Obj(
+    f"{M}:Matryoshka",
+    _max_proposal_age_sec=Real,
+    _component_buckets=DictOpt({CID: ProposalSetT, OTHER: ProposalSetT}),
+    _target_power=DictOpt({CID: PowerT, OTHER: PowerT}),
+)
+MatryoshkaOneBucket = Obj(
+    f"{M}:Matryoshka",
+    _max_proposal_age_sec=Real,
+    _component_buckets=DictOpt({CID: ProposalSetT}, always=[CID]),
+    _target_power=DictOpt({CID: PowerT}),
+)
+MatryoshkaStateOverlap = Obj(
+    f"{M}:Matryoshka",
+    _max_proposal_age_sec=Real,
+    _component_buckets=DictOpt({OVERLAP: ProposalSetT}, always=[OVERLAP]),
+    _target_power=DictOpt({}),
+)
+REPORT = "frequenz.sdk.microgrid._power_managing._base_classes:_Report"
+ReportT = Rec(REPORT, target_power=Opt(PowerT), _inclusion_bounds=OptBoundsT, _exclusion_bounds=OptBoundsT)
+
+
+def bucket(self, cid):
+    return self._component_buckets[cid]
+
+
+def stored_target(self, cid):
+    return self._target_power.get(cid)
+
+
+@contract(f"{M}:Matryoshka.get_target_power")
+class GetTargetPower:
+    self_shape = MatryoshkaState
+    shapes = dict(component_ids=Const(CID))
+    result = Opt(PowerT)
+    pure = True
+    ensures = dict(reads_stored="result == stored_target(self, component_ids)")
+
+
+@contract(f"{M}:Matryoshka.get_status")
+class GetStatus:
+    """What an actor of priority `priority` is told (general case: any proposals)."""
+    self_shape = MatryoshkaOneBucket
+    shapes = dict(component_ids=Const(CID), priority=Int, system_bounds=SystemBoundsT)
+    result = ReportT
+    pure = True
+    native_opaque = {"component_ids": CID}
+    loops = {
+        "for next_proposal in sorted( self._component_buckets.get(component_ids, []), reverse=True )": dict(
+            idx="_i",
+            invariant=dict(
+                excl_is_system="exclusion_bounds == sys_excl(system_bounds)",
+                within_system="system_bounds.inclusion_bounds.lower <= lower_bound"
+                              " and upper_bound <= system_bounds.inclusion_bounds.upper",
+            ),
+        ),
+    }
+    requires = dict(
+        zero_inside=C04_REQUIRES["zero_inside"],
+        has_bucket="component_ids in self._component_buckets",
+    )
+    ensures = dict(
+        target_is_stored="result.target_power == stored_target(self, component_ids)",
+        exclusion_passthrough="result._exclusion_bounds == system_bounds.exclusion_bounds",
+        none_iff_no_system_bounds="(result._inclusion_bounds is None) == (system_bounds.inclusion_bounds is None)",
+        within_system="implies(result._inclusion_bounds is not None,"
+                      " system_bounds.inclusion_bounds.lower <= result._inclusion_bounds.lower"
+                      " and result._inclusion_bounds.upper <= system_bounds.inclusion_bounds.upper)",
+    )
+
+
+@contract(f"{M}:Matryoshka.get_status", case="c04")
+class GetStatusC04:
+    """Conflict-free proposals: the reported range is exactly the running range G(k) in which the sweep
+    clamps this actor's own preferred power, k = number of strictly higher-priority proposals."""
+    self_shape = MatryoshkaOneBucket
+    shapes = dict(component_ids=Const(CID), priority=Int, system_bounds=SystemBoundsT)
+    result = ReportT
+    native_opaque = {"component_ids": CID}
+    ghost_seqs = dict(G=dict(GHOST_SEQS["G"], over="sorted(bucket(self, component_ids), reverse=True)"))
+    requires = dict(
+        has_bucket="component_ids in self._component_buckets",
+        has_system_bounds="system_bounds.inclusion_bounds is not None",
+        zero_inside=C04_REQUIRES["zero_inside"],
+        excl_within_incl=C04_REQUIRES["excl_within_incl"],
+        conflict_free="forall(0, len(bucket(self, component_ids)), lambda j: compatible(G(j)[0], G(j)[1],"
+                      " sys_excl(system_bounds), sorted(bucket(self, component_ids), reverse=True)[j]))",
+    )
+    loops = {
+        "for next_proposal in sorted( self._component_buckets.get(component_ids, []), reverse=True )": dict(
+            idx="_i",
+            invariant=dict(
+                excl_is_system="exclusion_bounds == sys_excl(system_bounds)",
+                running_bounds="lower_bound == G(_i)[0] and upper_bound == G(_i)[1]",
+                all_higher="forall(0, _i, lambda j: sorted(bucket(self, component_ids), reverse=True)[j].priority > priority)",
+            ),
+        ),
+    }
+    ensures = dict(
+        reported_is_running_range="exists(0, len(bucket(self, component_ids)) + 1, lambda k:"
+                                  " higher_count_ok(sorted(bucket(self, component_ids), reverse=True),"
+                                  " len(bucket(self, component_ids)), k, priority)"
+                                  " and result._inclusion_bounds.lower == G(k)[0]"
+                                  " and result._inclusion_bounds.upper == G(k)[1])",
+    )
